@@ -32,6 +32,8 @@ def universe():
         out = [[r] for r in recs]
         out += [[a, b] for a, b in it.combinations(recs, 2) if Model([a, b]).valid()]
         out += [[mrec("a", "x", (), (), "^1$")], [mrec("A", "X", ("a",), (), "^2$")], [mrec("b", "xy", (), ("x",), "^3$"), mrec("a", "X")]]
+        # case variants whose spellings differ in length (casefold: "ß" -> "ss", "ﬁ" -> "fi")
+        out += [[mrec("ß", "u1")], [mrec("SS", "u2")], [mrec("ss", "u3", ("k",))], [mrec("k1", "http://ﬁ/")], [mrec("k2", "http://FI/")], [mrec("ß", "u4"), mrec("SS", "u5")]]
         _UNIVERSE = out
     return _UNIVERSE
 
@@ -43,7 +45,7 @@ QS = [p + ":1" for p in QP] + [u + "1" for u in QU] + QU
 
 def units(tier, seed):
     n = len(universe())
-    us = [{"kind": "pairs", "first": ch} for ch in chunks(list(range(n)), 61)]
+    us = [{"kind": "pairs", "first": ch} for ch in chunks(list(range(n)), 64)]
     if tier == "thorough":
         us += [{"kind": "triples", "first": ch} for ch in chunks(list(range(81)), 81)]
     us += [{"kind": "sub-c04", "idx": ch} for ch in chunks(list(range(n)), 8)]
